@@ -132,8 +132,17 @@ func gU16(r *vh.Rand) uint16 {
 }
 func gU8(r *vh.Rand) uint8 { return uint8(r.PickU64(0, 1, 2, 3, 4, 5, 127, 128, 254, 255, r.U64())) }
 
+// mapped4 is the 16-byte IPv4-mapped IPv6 form (::ffff:a.b.c.d) of an IPv4
+// address: a legitimate 16-byte value that net.IP.To4() would shorten.
+func mapped4(a, b, c, d byte) []byte {
+	return []byte{0, 0, 0, 0, 0, 0, 0, 0, 0, 0, 0xff, 0xff, a, b, c, d}
+}
+
 // gAddr returns a (type, address bytes) pair valid for StreamOpen/UDPOpen/UDPDatagram.
 func gAddr(r *vh.Rand) (uint8, []byte) {
+	if r.Chance(1, 8) {
+		return protocol.AddrTypeIPv6, mapped4(10, byte(r.U64()), 0, byte(r.U64()))
+	}
 	switch r.Intn(3) {
 	case 0:
 		return protocol.AddrTypeIPv4, r.Bytes(4)
@@ -150,6 +159,9 @@ func gAddr(r *vh.Rand) (uint8, []byte) {
 
 // gBound returns a (type, address) pair valid for the *Ack messages.
 func gBound(r *vh.Rand) (uint8, []byte) {
+	if r.Chance(1, 8) {
+		return protocol.AddrTypeIPv6, mapped4(192, 168, byte(r.U64()), 1)
+	}
 	switch r.Intn(5) {
 	case 0, 1:
 		return protocol.AddrTypeIPv4, r.Bytes(4)
@@ -930,6 +942,9 @@ func allKinds() []*kind {
 	add(simple("ICMPOpen",
 		func(r *vh.Rand, over bool) any {
 			ip := r.Bytes(r.Pick(0, 4, 4, 4, 16, 1, 255))
+			if r.Chance(1, 5) {
+				ip = mapped4(10, 0, byte(r.U64()), 7)
+			}
 			if over && r.Chance(1, 2) {
 				ip = r.Bytes(r.Pick(256, 260))
 			}
@@ -979,6 +994,9 @@ func allKinds() []*kind {
 	add(simple("ICMPEcho",
 		func(r *vh.Rand, over bool) any {
 			ip := r.Bytes(r.Pick(0, 0, 4, 16, 1, 255))
+			if r.Chance(1, 5) {
+				ip = mapped4(8, 8, 4, byte(r.U64()))
+			}
 			if over && r.Chance(1, 2) {
 				ip = r.Bytes(256)
 			}
